@@ -22,7 +22,11 @@ MANIFEST = dict(
               '__delitem__, new_file executed symbolically on a small heap, FileInfo.write/read/verify executed on symbolic values into decision tables '
               '(24 placement rows, 4 read rows) that are judged in Coq against write_info/read_info, the truth table of __exit__, OpenModes.writable, '
               'writability guards, _check_arch_index and the name validation executed on probe values, '
-              'load_dirfile reset, listing walks) with kernel-checked instance obligations + vm_compute correspondence (histories on real '
+              'load_dirfile reset, listing walks; round 4: the statement structure of write_dirfile and load_dirfile compiled into programs with '
+              'interpreters (file buffer with a cursor / byte stream) proved equal to the codec on all inputs, _join_file_parts executed on symbolic '
+              'strings into a table, _get_file_parts executed for the three name forms into a description, the placement and read tables given a '
+              'meaning of their own, one composed statement c13_property with its hypotheses as a single boolean on the generated objects) '
+              'with kernel-checked instance obligations + vm_compute correspondence (histories on real '
               'directories byte-exact incl. with-blocks and load_dirfile() on the same object, independent decode incl. version 2 and damaged '
               'files, archive names really opened, name forms, NUL-terminated streams, nested dicts) + oracle search with a strict independent '
               'decoder',
@@ -48,7 +52,18 @@ MANIFEST = dict(
          'flat delete of the state machine) for every tree without a well-formedness assumption; for dicts without duplicate keys (an invariant of '
          'new_file/__delitem__) what __iter__ walks is exactly the table of the state machine after the same operations; the placement decision '
          'functions want_cut/want_dest/want_src against which the symbolic tables of FileInfo.write/read/verify are checked are write_info / '
-         'read_info / verify_info of the model for all inputs; wrong variants are refuted by computed witnesses.',
+         'read_info / verify_info of the model for all inputs; wrong variants are refuted by computed witnesses. Round 4: '
+         'c13_write_dirfile_program_is_encoder / c13_load_dirfile_program_is_decoder: the statements of write_dirfile / load_dirfile as read from '
+         'the source (header, mark, three nested loops over sorted dicts skipping empty ones, string / entry / preload, one NUL after each level, tree '
+         'length measured before footer_data and patched in at offset 8; header checks, version-2 fields skipped, the two sentinel rewrites, '
+         'terminator check, preload read, early exit, footer) run by an interpreter give exactly enc_file / dec_file_v for every accepted program and '
+         'every input, and the reader inverts the writer (c13_dirfile_programs_roundtrip); c13_write_table_is_write_info / '
+         'c13_read_table_is_read_info: FileInfo.write / read / verify run from the translated tables are write_info / read_info / verify_info; '
+         'c13_join_table_is_model, c13_get_parts_description_is_model, c13_listed_name_resolves, c13_generated_listed_name_resolves, '
+         'c13_join_of_parts: both name helpers as generated objects, _get_file_parts o _join_file_parts = id on listable keys and '
+         '_join_file_parts o _get_file_parts = id on names in listed form, with the trailing-dot class carved out exactly (refuted by witness); '
+         'c13_property: all parts in one statement under the single hypothesis c13_hyps (a boolean on the fourteen generated objects, '
+         'discharged for today\'s source on every run).',
     note='The model SM/Vpk.v (step/run), the codec Fmt/VpkDir.v/VpkDirV2.v, Fmt/VpkName.v and the string primitives of Fmt/VpkArchName.v are '
          'hand-written and tied to srctools.vpk by differential runs on every run (not by proof): histories on real temp directories compared '
          'byte-exactly, decode of written/damaged/version-2 files, the archive files really opened by the three get_arch_filename sites, name '
@@ -58,7 +73,7 @@ MANIFEST = dict(
          'parameter of the name theorems), OS append/seek semantics (archives modelled as append-only byte lists; the "ab" open mode and '
          'seek(0, SEEK_END) are a translated site). Premises that are real limits of the code: a write whose CRC-32 equals the stored one is '
          'skipped (collision premise); fields >= 4 GiB make write_dirfile raise. Only searched (not modelled): add_folder, extract_all, the '
-         'non-default arguments of filenames/fileinfos/folders, FileInfo.size. Outside: writing version 2, the root= argument, script_write, '
+         'non-default arguments of filenames/fileinfos/folders, FileInfo.size, the root= argument, script_write. Outside: writing version 2, '
          'VPKFileSystem, stale FileInfo handles, other processes, archive files present before the history, a load_dirfile() on the same object '
          'that fails half-way. File names whose last component ends in "." are listed without the dot (known finding name-trailing-dot).',
 )
@@ -736,8 +751,8 @@ LONG_CORPUS = [{'cfg': {'dir': True, 'limit': 4}, 'ops': [('add', 'k.t', 's', (2
 
 
 def search(ck: Ck) -> None:
-    n_small = bud(ck, 400, 1500, 6000)
-    n_big = bud(ck, 14, 40, 300)
+    n_small = bud(ck, 320, 1500, 6000)
+    n_big = bud(ck, 10, 40, 300)
     found: dict[str, tuple] = {}
     cases = list(CORPUS) + list(LONG_CORPUS)
     for j, nm in enumerate(LONG_NAMES):     # every position x every boundary length, alone in an archive and next to another file
@@ -869,6 +884,79 @@ def folder_stream(ck: Ck) -> None:
                 shutil.rmtree(d, ignore_errors=True)
 
 
+ROOT_CASES = [
+    # (name form, root, where the file has to end up)
+    (('/abs/root/sub', 'f.txt'), '/abs/root', ('sub', 'f', 'txt')),
+    ('/abs/root/a/b.c', '/abs/root', ('a', 'b', 'c')),
+    (('/abs/root', 'top.t'), '/abs/root', ('', 'top', 't')),
+    (('x/y/z', 'n', 'e'), 'x', ('y/z', 'n', 'e')),
+    ('x/y/z/n.e', 'x/y', ('z', 'n', 'e')),
+    ('x/y/.hidden', 'x', ('y', '', 'hidden')),
+]
+
+
+def root_and_script_stream(ck: Ck) -> None:
+    """The `root=` argument of new_file / add_file (the name is taken relative to root) and the command line entry point script_write
+    (a directory tree packed into <folder>_dir.vpk + numbered archives): only searched, not modelled."""
+    import contextlib
+    import io
+    from srctools import vpk as vpkmod
+    for j, (form, root, want_key) in enumerate(ROOT_CASES):
+        d = tempfile.mkdtemp(prefix='c13r_', dir=os.environ.get('VERIF_SCRATCH', '/var/tmp'))
+        ck.count('oracle_root_cases')
+        case = {'name': form, 'root': root, 'expected_entry': want_key, 'how': 'VPK(mode="w").add_file(name, data, root=root); write_dirfile(); VPK(mode="r")'}
+        try:
+            with impl_deadline():
+                path = os.path.join(d, 'pak_dir.vpk')
+                v = vpkmod.VPK(path, mode='w', dir_data_limit=[4, None, 1024][j % 3])
+                data = gen_data(1 + j % 3, [9, 2000, 3][j % 3])
+                if j % 2:
+                    v.new_file(form, root).write(data, 0)
+                else:
+                    v.add_file(form, data, root)
+                v.write_dirfile()
+                got = observe(vpkmod.VPK(path, mode='r'))
+            if got != {want_key: (dg(data), True)}:
+                ck.violation('root-argument-mismatch', f'add_file/new_file({form!r}, root={root!r}) then write_dirfile + reopen gives {sorted(got)[:3]}, expected the entry {want_key}', {'root_case': case})
+            else:
+                ck.seen(('root', j))
+        except ImplTimeout as e:
+            ck.violation('implementation-hangs', f'add_file with root=: {e}', {'root_case': case})
+        except Exception as e:      # noqa
+            ck.violation('root-argument-exception', f'add_file/new_file({form!r}, root={root!r}) raised {type(e).__name__}: {e}'[:300], {'root_case': case})
+        finally:
+            shutil.rmtree(d, ignore_errors=True)
+    for ti, tree in enumerate(FOLDER_TREES):
+        d = tempfile.mkdtemp(prefix='c13s_', dir=os.environ.get('VERIF_SCRATCH', '/var/tmp'))
+        ck.count('oracle_script_write_cases')
+        case = {'tree': tree, 'how': 'checks.c13.root_and_script_stream: srctools.vpk.script_write([<dir>/content]); VPK(<dir>/content_dir.vpk)'}
+        try:
+            src = os.path.join(d, 'content')
+            for rel, spec in tree.items():
+                os.makedirs(os.path.dirname(os.path.join(src, rel)), exist_ok=True)
+                with open(os.path.join(src, rel), 'wb') as f:
+                    f.write(gen_data(*spec))
+            want = {}
+            for rel, spec in tree.items():
+                rd, _, fn = rel.rpartition('/')
+                want[ref_parts((rd, fn))] = (dg(gen_data(*spec)), True)
+            with impl_deadline(), contextlib.redirect_stdout(io.StringIO()):
+                vpkmod.script_write([src])
+                got = observe(vpkmod.VPK(os.path.join(d, 'content_dir.vpk'), mode='r'))
+            others = sorted(x for x in os.listdir(d) if x != 'content' and not re.fullmatch(r'content_(dir|\d\d\d)\.vpk', x))
+            if got != want or others:
+                ck.violation('script_write-mismatch', f'script_write: missing {sorted(set(want) - set(got))[:3]} extra {sorted(set(got) - set(want))[:3]} '
+                             f'differing {[k for k in want if k in got and got[k] != want[k]][:3]} unexpected files {others[:3]}', {'script_case': case})
+            else:
+                ck.seen(('script', ti))
+        except ImplTimeout as e:
+            ck.violation('implementation-hangs', f'script_write: {e}', {'script_case': case})
+        except Exception as e:      # noqa
+            ck.violation('script_write-exception', f'script_write raised {type(e).__name__}: {e}'[:300], {'script_case': case})
+        finally:
+            shutil.rmtree(d, ignore_errors=True)
+
+
 # ------------------------------------------------------------------------------------------------ Coq literals
 def cbytes(b: bytes) -> str:
     """A byte string as a Coq term of type list N; runs of one byte become `nrep byte count` (SM/VpkCorr.v) so that the long
@@ -945,9 +1033,10 @@ def c_dg(d) -> str:
 def corr_machine(ck: Ck) -> None:
     """SM/Vpk.v run on the same histories as the implementation: per-op code and summary, final per-file digests,
     byte-exact directory file and archives (length + CRC32)."""
-    n_small = bud(ck, 170, 600, 2500)
-    n_big = bud(ck, 3, 8, 40)
-    cases = [c for c in CORPUS] + list(LONG_CORPUS)
+    n_small = bud(ck, 100, 600, 2500)
+    n_big = bud(ck, 2, 8, 40)
+    # quick tier: every tree-string position at 256 and 1000 characters; escalated / thorough: also 255 and 257
+    cases = [c for c in CORPUS] + (list(LONG_CORPUS) if ck.thorough or ck.tie_broken else LONG_CORPUS[1::2])
     for _ in range(n_small):
         cases.append(gen_case(ck.rng, small=True))
     for _ in range(n_big):
@@ -1013,7 +1102,7 @@ def corr_decode(ck: Ck) -> None:
     """Independent decode: the bytes the implementation wrote (and truncations of them) through the model decoder,
     against what the implementation itself loads from those bytes."""
     from srctools.vpk import VPK
-    n = bud(ck, 100, 300, 1200)
+    n = bud(ck, 50, 300, 1200)
     lits = []
     nbad_files = 0
     d = tempfile.mkdtemp(prefix='c13d_', dir=os.environ.get('VERIF_SCRATCH', '/var/tmp'))
@@ -1117,7 +1206,7 @@ def corr_decode(ck: Ck) -> None:
 def corr_names(ck: Ck) -> None:
     """Fmt/VpkName.v file_parts / join_parts vs _get_file_parts / _join_file_parts."""
     from srctools.vpk import _get_file_parts, _join_file_parts
-    n = bud(ck, 1500, 6000, 20000)
+    n = bud(ck, 1000, 6000, 20000)
     forms = []
     for nm in NAME_POOL + TRAILING_DOT + BAD_NAMES:
         for k in 's23':
@@ -1479,10 +1568,10 @@ def run(ck: Ck) -> None:
                'the file each of the three get_arch_filename sites really opens; non-trivial = a directory VPK. NUL-terminated streams: '
                'sections of strings incl. lengths around 255/256 and damaged streams. nested dicts: 1..8 files over 3 extensions x 4 folders x 3 '
                'stems then 1..6 deletes; sequences of 2..14 new_file/del from an empty archive with 4 membership probes. folders: add_folder over 3 '
-               'directory trees x 5 prefixes, extract_all.')
+               'directory trees x 5 prefixes, extract_all; add_file/new_file with root= (6 cases), script_write on the 3 trees.')
     ck.trusted.append('hand-written models Fmt/VpkDir.v, Fmt/VpkDirV2.v, SM/Vpk.v, Fmt/VpkName.v, string primitives of Fmt/VpkArchName.v (tied by '
                       'differential correspondence on every run); zlib.crc32 incl. its chaining property; posixpath.normpath; '
-                      'translate/c13_archname.py, c13_nullstr.py, c13_nested.py, c13_api.py; hand-written SM/VpkApi.v, SM/VpkNested.v, '
+                      'translate/c13_archname.py, c13_nullstr.py, c13_nested.py, c13_api.py, c13_names.py, c13_dirprog.py; hand-written SM/VpkApi.v, SM/VpkNested.v, '
                       'SM/VpkNestedMap.v, Fmt/VpkNullStr.v (tied by the translated descriptions and by correspondence)')
     ck.assumptions += [
         'the data values written in one history, together with the empty string, have pairwise different CRC-32 unless equal (premise collision_free of c13_vpk_refines_map: FileInfo.write skips a write whose checksum equals the stored one; checked with zlib on every generated history, see input_distribution.refinement_premise)',
@@ -1541,6 +1630,7 @@ def run(ck: Ck) -> None:
                 'andb (c13_hyps g_exit_table (g_vcfg true (Some 1024%N)) g_place_table g_read_table g_ins_ext g_ins_dir g_del_prog g_ncodec g_wprog g_rprog g_ext_split g_parts g_join_table g_ncfg) '
                 '(c13_hyps g_exit_table (g_vcfg false None) g_place_table g_read_table g_ins_ext g_ins_dir g_del_prog g_ncodec g_wprog g_rprog g_ext_split g_parts g_join_table g_ncfg)',
             'write_dirfile_program_is_the_directory_encoder': 'wprog_ok g_wprog',
+            'write_dirfile_refuses_version_2_before_opening_the_file': 'g_write_refuses_v2',
             'write_dirfile_loops_ext_folder_file_sorted': 'andb (w_nest_ok g_wprog) (w_sorted g_wprog)',
             'write_dirfile_skips_empty_dicts': 'andb (w_ext_skip g_wprog) (w_dir_skip g_wprog)',
             'write_dirfile_header_mark_then_length_patched_after_footer': 'andb (if list_eq_dec wop_eq_dec (w_before g_wprog) (w_before wprog_pinned) then true else false) '
@@ -1601,6 +1691,7 @@ def run(ck: Ck) -> None:
     t0 = __import__('time').time()
     staged(ck, search)
     staged(ck, folder_stream)
+    staged(ck, root_and_script_stream)
     if os.environ.get('C13_TIMING'):
         print(f'  [timing] search: {__import__("time").time() - t0:.1f}s')
     keys = {v['key'] for v in ck.violations}
@@ -1634,9 +1725,10 @@ def replay(data: dict) -> int:
             print('    expect:', {k: (dg(v), True) for k, v in e['map'].items()})
         print('filenames():', got['names'])
         return 0
-    if 'folder_case' in r:
-        print(r['folder_case'])
-        return 0
+    for k in ('folder_case', 'root_case', 'script_case'):
+        if k in r:
+            print(r[k])
+            return 0
     if 'fname' in r:
         dp, sites = arch_sites_impl(r['fname'], list(r['indexes']))
         print('VPK file name:', r['fname'], '-> _dir_prefix', repr(dp))
